@@ -447,6 +447,15 @@ def random_history(case, nsteps, weights):
                 line, d = case.step_search(rq, dest)
             else:
                 line, d = case.step_pull(rq, dest)
+        elif kind == "stale":
+            # an operator (or another task) changes a copy that a queued delete task already holds a snapshot of
+            if not pending_deletes:
+                continue
+            c = rng.choice(pending_deletes)
+            h, wn = rng.choice([("Y", "N"), ("Y", "N"), ("Y", "Y"), ("X", "N")])
+            db.ArchiveFileCopy.update(has_file=h, wants_file=wn).where(db.ArchiveFileCopy.id == c.id).execute()
+            line = f"w.op opSetCopy {case.mid_copy.get(c.id, c.id)} {h} {wn}"
+            d = dict(kind="op", what="stale-setCopy")
         elif kind == "op":
             r = rng.random()
             rows = list(db.ArchiveFileCopy.select())
